@@ -46,37 +46,56 @@ FAMS = {
     "LossChannel": ("KChannel", 0), "ThermalLossChannel": ("KChannel", 1), "MSgate": ("KOther", 1),
     "Vacuum": ("KPrep", 0), "Coherent": ("KPrep", 1), "Squeezed": ("KPrep", 1), "Thermal": ("KPrep", 0), "Fock": ("KPrep", 0),
     "BSgate": ("KGate", 1), "CXgate": ("KGate", 0), "MeasureX": ("KOther", 0), "RgateM": ("KOther", 0), "Del": ("KOther", 0),
+    "S2gate": ("KGate", 1), "CZgate": ("KGate", 0), "MZgate": ("KGate", 1), "CKgate": ("KGate", 0),
 }
+TWO_MODE = ("BSgate", "CXgate", "S2gate", "CZgate", "MZgate", "CKgate")
 FAM_ID = {n: i for i, n in enumerate(sorted(FAMS))}
 
 
 def gen_circuit(rng, profile):
-    n = rng.randint(1, 3)
     fock = profile == "fock"
     bos = profile == "bosonic"
+    n = rng.randint(1, 4 if profile == "gauss" else 3)
     names = ["Dgate", "Xgate", "Zgate", "Sgate", "Rgate", "Pgate", "Fouriergate", "LossChannel", "Vacuum", "Coherent", "Squeezed", "BSgate", "CXgate"]
     if fock:
-        names += ["Vgate", "Kgate", "Fock"]
+        names += ["Vgate", "Kgate", "Fock", "CKgate"]
     else:
         names += ["ThermalLossChannel", "Thermal", "MeasureX", "RgateM"]
     if bos:
         names += ["MSgate"]
+    if profile == "gauss":
+        names += ["S2gate", "CZgate", "MZgate"]
     cmds = []
     measured = set()
     deleted = set()
+    if rng.random() < 0.5:
+        # a correlated, displaced starting state: on the vacuum many wrong merges would be invisible in the state
+        for m in range(n):
+            cmds.append({"name": "Sgate", "p0": Fraction(3 if not fock else 1, 16), "extra": [0.5], "modes": [m], "dagger": False})
+            cmds.append({"name": "Dgate", "p0": Fraction(2 if not fock else 1, 8), "extra": [0.25], "modes": [m], "dagger": False})
+        for m in range(n - 1):
+            cmds.append({"name": "BSgate", "p0": Fraction(4, 8), "extra": [0.25], "modes": [m, m + 1], "dagger": False})
     for _ in range(rng.randint(0, 12)):
+        p0_rel = None
         if cmds and rng.random() < 0.45:
-            # same family on the same mode as some earlier single-mode command: provoke merges
-            prev = rng.choice([c for c in cmds if len(c["modes"]) == 1] or cmds)
+            # same family on the same mode(s) as some earlier command: provoke merges (two-mode families too: they must never merge)
+            prev = rng.choice([c for c in cmds if len(c["modes"]) == 1] or cmds) if rng.random() < 0.7 else rng.choice(cmds)
             name, modes = prev["name"], list(prev["modes"])
+            if name == "Del":
+                continue
+            if len(modes) == 2 and rng.random() < 0.15:
+                modes = modes[::-1]
             extra = list(prev["extra"]) if rng.random() < 0.8 else None
             if name == "RgateM":
                 cmds.append({"name": name, "p0": prev["p0"], "extra": [], "modes": modes, "dagger": False})
                 continue
+            if isinstance(prev["p0"], Fraction) and FAMS[name][0] == "KGate":
+                r = rng.random()
+                p0_rel = (prev, 1) if r < 0.2 else ((prev, -1) if r < 0.4 else ((prev, 0) if r < 0.5 else None))
         else:
             name = rng.choice(names)
             modes, extra = None, None
-        two = name in ("BSgate", "CXgate")
+        two = name in TWO_MODE
         if two and n < 2:
             continue
         if modes is None or len(modes) != (2 if two else 1):
@@ -85,7 +104,7 @@ def gen_circuit(rng, profile):
             continue
         kind, nextra = FAMS[name]
         if name in ("LossChannel", "ThermalLossChannel"):
-            p0 = Fraction(rng.choice([8, 8, 4, 2, 6]), 8)
+            p0 = Fraction(rng.choice([8, 8, 4, 2, 6, 0]), 8) if rng.random() < 0.9 else Fraction(255, 256)
         elif name in ("Fouriergate", "Vacuum", "MeasureX"):
             p0 = None
         elif name == "Fock":
@@ -108,6 +127,12 @@ def gen_circuit(rng, profile):
         if extra is None or len(extra) != nextra:
             extra = [rng.choice(PH) for _ in range(nextra)]
         dagger = kind in ("KGate", "KFourier") and name != "RgateM" and rng.random() < 0.3
+        if p0_rel is not None:
+            # effective parameter (sign flipped by a dagger) equal / opposite / opposite up to 1/256 to that of the earlier command
+            prev, rel = p0_rel
+            eff = -prev["p0"] if prev["dagger"] else prev["p0"]
+            eff2 = eff if rel == 1 else (-eff if rel == -1 else -eff + Fraction(1, 256))
+            p0 = -eff2 if dagger else eff2
         if name == "MeasureX":
             measured.add(modes[0])
         cmds.append({"name": name, "p0": p0, "extra": extra, "modes": modes, "dagger": dagger})
@@ -414,6 +439,7 @@ def search(ctx):
         if max(np.abs(o1[0] - o2[0]).max(), np.abs(o1[1] - o2[1]).max()) > 1e-8:
             ctx.counterexample("compile-optimize:changes-state", "compile(optimize=True) changes the computed state", data)
     search_matrix_merge(ctx)
+    search_extended(ctx)
 
 
 # ---- single-mode operations whose first parameter is a MATRIX: Decomposition.merge (U2 @ U1) and Channel.merge (np.dot) ----------------
@@ -508,8 +534,686 @@ def search_matrix_merge(ctx):
             ctx.counterexample(r[0], r[1], data)
 
 
+# ======================================================================================================================
+# Extended stream (no Coq model: the property's own predicate evaluated on the implementation).
+# Programs outside the model's vocabulary -- symbolic (free / measured) parameters, every preparation / measurement /
+# two-mode family, New, 4-6 modes -- through EVERY optimising entry point and several call histories.
+#
+# xspec = {"n": initial modes, "backend": "gaussian"|"fock"|"bosonic", "route": <ROUTES>, "free": {"x": value}, "draw": d, "draw0": d0,
+#          "cmds": [[name, [args], [mode labels], dagger, {keyword options}], ...]}
+# mode labels: 0..n-1, every "New" command adds the next label.  arguments: number | {"c":[re,im]} | {"free":name,"k":a,"b":c} (= a*name+c)
+# | {"meas":label,"k":a} (= a*q[label].par) | {"mat": real matrix} | {"cmat": [[ [re,im] ]]} | {"vec": [[re,im]]}
+# ======================================================================================================================
+ROUTES = ["opt", "opt2", "ran", "engine", "compiled-then-opt", "compile:gaussian", "compile:fock", "compile:bosonic", "compile:gaussian_unitary",
+          "compile:gaussian_merge", "compile:passive", "compile:gbs", "compile:Xunitary", "compile:Xcov"]
+X_CUTOFF = 5
+
+
+def x_arg(a, regs, par):
+    if isinstance(a, dict):
+        if "c" in a:
+            return complex(a["c"][0], a["c"][1])
+        if "free" in a or "meas" in a:
+            s = par[a["free"]] if "free" in a else regs[a["meas"]].par
+            k, b = a.get("k", 1), a.get("b", 0)
+            if k == -1:
+                s = -s
+            elif k != 1:
+                s = k * s
+            return s + b if b != 0 else s
+        if "mat" in a:
+            return np.array(a["mat"], dtype=float)
+        if "cmat" in a:
+            return np.array([[complex(*z) for z in row] for row in a["cmat"]])
+        if "vec" in a:
+            return np.array([complex(*z) for z in a["vec"]])
+    return a
+
+
+def x_build(spec):
+    prog = sf.Program(spec["n"])
+    par = {k: prog.params(k) for k in sorted(spec.get("free", {}))}
+    with prog.context as q:
+        regs = list(q)
+        for name, args, modes, dagger, opts in spec["cmds"]:
+            if name == "New":
+                regs.extend(ops.New(1))
+                continue
+            if name == "Del":
+                ops.Del | tuple(regs[m] for m in modes)
+                continue
+            op = getattr(ops, name)(*[x_arg(v, regs, par) for v in args], **{k: x_arg(v, regs, par) for k, v in opts.items()})
+            if dagger:
+                op = op.H
+            op | tuple(regs[m] for m in modes)
+    return prog
+
+
+class _Draws:
+    """Deterministic 'random' measurement outcomes: mean + draw * standard deviation (independent of the order of RNG calls)."""
+    def __init__(self, draw):
+        self.draw = draw
+    def __enter__(self):
+        self.saved = (np.random.normal, np.random.multivariate_normal)
+        d = self.draw
+        def normal(loc=0.0, scale=1.0, size=None):
+            # (the conjugate quadrature of a post-selected homodyne measurement: its mean)
+            v = np.asarray(loc, dtype=float)
+            return v if size is None else np.broadcast_to(v, size).copy()
+        def mvn(mean, cov, size=None, **kw):
+            v = np.asarray(mean, dtype=float) + d * np.sqrt(np.abs(np.diag(np.asarray(cov, dtype=float))))
+            return v if size is None else np.broadcast_to(v, (size if isinstance(size, int) else tuple(size)[0], len(v))).copy()
+        np.random.normal, np.random.multivariate_normal = normal, mvn
+        np.random.seed(4321)
+    def __exit__(self, *a):
+        np.random.normal, np.random.multivariate_normal = self.saved
+
+
+def x_run(prog, spec, draw=None, **run_kw):
+    """-> (observable arrays, samples, register values)"""
+    backend = spec["backend"]
+    eng = sf.Engine(backend, backend_options={"cutoff_dim": spec.get("cutoff", X_CUTOFF)} if backend == "fock" else {})
+    import warnings
+    with warnings.catch_warnings(), _Draws(spec.get("draw", 0.3) if draw is None else draw):
+        warnings.simplefilter("ignore")
+        res = eng.run(prog, args=dict(spec.get("free", {})), **run_kw)
+    st = res.state
+    if backend == "fock":
+        obs = (np.asarray(st.dm()), float(np.real(st.trace())))
+    else:
+        obs = bc.gauss_obs(st)
+    smp = None if res.samples is None else np.asarray(res.samples, dtype=complex)
+    return obs, smp
+
+
+def x_close(spec, a, b):
+    """None if the two run results agree, else a short text."""
+    (o1, s1), (o2, s2) = a, b
+    if spec["backend"] == "fock":
+        if o1[0].shape != o2[0].shape:
+            return "different numbers of modes"
+        tol = max(1e-6 + 4.0 * math.sqrt(max(0.0, 1.0 - o1[1])), 1e-6 + 4.0 * math.sqrt(max(0.0, 1.0 - o2[1])), 1e-4 if min(o1[1], o2[1]) < 1 - 1e-9 else 1e-7)
+        d = float(np.abs(o1[0] - o2[0]).max())
+        if d > tol:
+            return "density matrices differ by %.3g (tolerance %.1g)" % (d, tol)
+    else:
+        if o1[0].shape != o2[0].shape:
+            return "different numbers of modes"
+        scale = max(1.0, float(np.abs(o1[1]).max()))
+        d = max(float(np.abs(o1[0] - o2[0]).max()), float(np.abs(o1[1] - o2[1]).max()) / scale)
+        if d > 1e-7:
+            return "means / covariance differ by %.3g" % d
+    if (s1 is None) != (s2 is None) or (s1 is not None and (s1.shape != s2.shape or (s1.size and float(np.abs(s1 - s2).max()) > 1e-6))):
+        return "measurement samples differ: %s vs %s" % (None if s1 is None else s1.tolist(), None if s2 is None else s2.tolist())
+    return None
+
+
+def _pfp(x):
+    if isinstance(x, np.ndarray):
+        return ("arr", x.shape, str(x.dtype), x.tobytes())
+    if isinstance(x, (list, tuple)):
+        return ("seq", type(x).__name__, tuple(_pfp(y) for y in x))
+    return ("val", type(x).__name__, repr(x))
+
+
+def x_fingerprint(prog, vals=True):
+    """By-value picture of a program: command / operation / parameter-list identities and every attribute of every operation."""
+    cmds = []
+    for c in prog.circuit:
+        d = []
+        for k, v in sorted(c.op.__dict__.items()):
+            if k == "_measurement_deps":
+                d.append((k, tuple(sorted((id(r), r.ind) for r in v))))
+            elif k == "p":
+                d.append((k, id(v), tuple(_pfp(y) for y in v)))
+            else:
+                d.append((k, _pfp(v)))
+        cmds.append((id(c), id(c.op), type(c.op).__name__, tuple((id(r), r.ind) for r in c.reg), tuple(d)))
+    regs = tuple((k, id(r), r.ind, r.active, repr(r.val) if vals else None) for k, r in sorted(prog.reg_refs.items()))
+    other = (id(prog.circuit), tuple(sorted((k, id(v)) for k, v in prog.free_params.items())), repr(sorted(prog.run_options.items())), repr(sorted(prog.backend_options.items())),
+             prog.target, prog.init_num_subsystems, tuple(sorted(prog.unused_indices)), prog.name, id(prog.source) if prog.source is not None else None)
+    return (tuple(cmds), regs, other)
+
+
+def _fp_diff(a, b):
+    if a[0] != b[0]:
+        if len(a[0]) != len(b[0]):
+            return "the circuit has %d commands instead of %d" % (len(b[0]), len(a[0]))
+        for i, (x, y) in enumerate(zip(a[0], b[0])):
+            if x != y:
+                return "command %d (%s) changed" % (i, x[2])
+    if a[1] != b[1]:
+        return "the register references changed"
+    return "program attributes changed"
+
+
+def _cstr(c):
+    try:
+        return str(c)
+    except Exception:   # (printing a Catstate / GKP with its string-valued option fails: not this property's business)
+        return "%s%s|%s" % (type(c.op).__name__, [repr(x) for x in c.op.p], [r.ind for r in c.reg])
+
+
+def wires_of(prog):
+    g = {}
+    for c in prog.circuit:
+        for r in c.get_dependencies():
+            g.setdefault(r.ind, []).append(_cstr(c))
+    return g
+
+
+def x_strip_measure_fock(p):
+    q = p._linked_copy()
+    q.circuit = [c for c in p.circuit if type(c.op).__name__ not in ("MeasureFock", "MeasureThreshold")]
+    return q
+
+
+def x_passive_matrix(prog):
+    """The n x n transformation of a program compiled with the 'passive' compiler (PassiveChannel commands only), or None."""
+    n = len(prog.reg_refs)
+    T = np.identity(n, dtype=complex)
+    for c in prog.circuit:
+        if type(c.op).__name__ != "PassiveChannel":
+            return None
+        idx = [r.ind for r in c.reg]
+        M = np.identity(n, dtype=complex)
+        M[np.ix_(idx, idx)] = np.asarray(c.op.p[0], dtype=complex)
+        T = M @ T
+    return T
+
+
+def x_check(spec):
+    """Evaluate the property on one xspec.  -> (signature | None, text, merged?)"""
+    import warnings
+    route = spec["route"]
+    with warnings.catch_warnings():
+        warnings.simplefilter("ignore")
+        fresh = x_build(spec)      # never optimised: the reference
+        prog = x_build(spec)
+        tag = route.replace("compile:", "compile-optimize:")
+        if route == "ran":
+            x_run(prog, spec, draw=spec.get("draw0", -0.7))
+        fp0 = x_fingerprint(prog)
+        strip = route in ("compile:gbs", "compile:Xunitary", "compile:Xcov")
+        ref_prog = fresh
+        try:
+            if route.startswith("compile:"):
+                comp = route.split(":")[1]
+                try:
+                    ref_prog = x_build(spec).compile(compiler=comp)
+                except Exception:
+                    return None, "not compilable without optimisation", False   # not a case for this compiler
+                out = prog.compile(compiler=comp, optimize=True)
+            elif route == "compiled-then-opt":
+                out = prog.compile(compiler=spec["backend"]).optimize()
+            elif route == "opt2":
+                once = prog.optimize()
+                out = once.optimize()
+            elif route == "engine":
+                out = None
+            else:
+                out = prog.optimize()
+        except Exception as e:
+            return "%s:raises:%s" % (tag, type(e).__name__), "%s raised %r" % (route, e), True
+        fp1 = x_fingerprint(prog)
+        if fp1 != fp0:
+            return "%s:mutates-original" % tag, "the original program changed: " + _fp_diff(fp0, fp1), True
+        merged = out is not None and len(out.circuit) < len(prog.circuit)
+        if route == "opt2":
+            if wires_of(once) != wires_of(out):
+                return "optimize-twice:not-idempotent", "optimising the optimised program changed it again: %s -> %s" % ([_cstr(c) for c in once.circuit], [_cstr(c) for c in out.circuit]), True
+        if route == "compile:passive":
+            # passive circuits leave the vacuum alone: compare the transformation itself (one matrix over all modes)
+            T1, T2 = x_passive_matrix(ref_prog), x_passive_matrix(out)
+            if T1 is None or T2 is None or float(np.abs(T1 - T2).max()) > 1e-9:
+                return "%s:changes-compiled-circuit" % tag, "compile(optimize=True) and compile() give different passive transformations: %s vs %s" % (
+                    [_cstr(c) for c in ref_prog.circuit], [_cstr(c) for c in out.circuit]), True
+        try:
+            if strip:
+                ref = x_run(x_strip_measure_fock(ref_prog), spec)
+            else:
+                ref = x_run(ref_prog, spec)
+        except Exception:
+            return None, "the unoptimised program cannot be run on this backend", False
+        try:
+            if route == "engine":
+                got = x_run(prog, spec, compile_options={"optimize": True})
+            else:
+                got = x_run(x_strip_measure_fock(out) if strip else out, spec)
+        except Exception as e:
+            return "%s:run-raises:%s" % (tag, type(e).__name__), "running the optimised program raised %r" % e, True
+        why = x_close(spec, ref, got)
+        if why:
+            return "%s:changes-state" % tag, "optimised program differs from the unoptimised one: " + why, True
+        # the original, run AFTER the optimised copy (they share operation objects and register references)
+        try:
+            again = x_run(x_strip_measure_fock(prog) if strip else prog, spec)
+            ref0 = ref if not route.startswith("compile:") else x_run(x_strip_measure_fock(fresh) if strip else fresh, spec)
+        except Exception as e:
+            return "%s:original-run-raises:%s" % (tag, type(e).__name__), "running the original after its optimised copy raised %r" % e, True
+        why = x_close(spec, ref0, again)
+        if why:
+            return "%s:original-changed-behaviour" % tag, "the original program, run after its optimised copy, differs from a fresh build: " + why, True
+        fp2 = x_fingerprint(prog, vals=False)
+        if fp2[0] != fp0[0]:
+            return "%s:mutates-original-at-run" % tag, "running the optimised copy changed the original's operations: " + _fp_diff(fp0, fp2), True
+        if out is not None and not route.startswith("compile:"):
+            # measured values are visible through the copy's register (shared references)
+            a = [repr(r.val) for _, r in sorted(prog.reg_refs.items())]
+            b = [repr(r.val) for _, r in sorted(out.reg_refs.items())]
+            if a != b or any(out.reg_refs[k] is not prog.reg_refs[k] for k in prog.reg_refs):
+                return "%s:register-not-shared" % tag, "the optimised copy does not share the original's register references", True
+    return None, "", merged
+
+
+# ---- generators of the extended stream -------------------------------------------------------------------------------------------------
+XG1 = {"Dgate": 1, "Xgate": 0, "Zgate": 0, "Sgate": 1, "Rgate": 0, "Pgate": 0}     # family -> number of further parameters
+XG1_FOCK = {"Vgate": 0, "Kgate": 0}
+XG2 = {"BSgate": 1, "S2gate": 1, "CXgate": 0, "CZgate": 0, "MZgate": 1}
+XG2_FOCK = {"CKgate": 0}
+
+
+def x_prefix(labels, weak, links=True):
+    """A correlated, displaced state with no symmetry (so that every gate / channel is visible)."""
+    s, d = (0.12, 0.15) if weak else (0.3, 0.25)
+    out = []
+    for j, m in enumerate(labels):
+        out.append(["Sgate", [s + 0.03 * j, 0.4 * j], [m], False, {}])
+        out.append(["Dgate", [d, 0.3 + j], [m], False, {}])
+    if links:
+        for a, b in zip(labels, labels[1:]):
+            out.append(["BSgate", [0.6, 0.3], [a, b], False, {}])
+    return out
+
+
+def x_units(backend):
+    """Single-mode commands of every kind (name, args, dagger, opts), for the cross-family sweep."""
+    weak = backend == "fock"
+    k = 0.4 if weak else 1.0
+    u = [["Dgate", [0.25 * k, 0.3], False, {}], ["Dgate", [0.25 * k, 0.3], True, {}], ["Xgate", [0.3 * k], False, {}], ["Zgate", [-0.25 * k], False, {}],
+         ["Sgate", [0.25 * k, 0.5], False, {}], ["Sgate", [0.25 * k, 0.5], True, {}], ["Rgate", [0.5], False, {}], ["Rgate", [0.5], True, {}], ["Pgate", [0.25 * k], False, {}],
+         ["Fouriergate", [], False, {}], ["Fouriergate", [], True, {}], ["LossChannel", [0.5], False, {}], ["LossChannel", [1.0], False, {}], ["LossChannel", [0.0], False, {}],
+         ["Vacuum", [], False, {}], ["Coherent", [0.3 * k, 0.4], False, {}], ["Squeezed", [0.3 * k, 0.5], False, {}], ["DisplacedSqueezed", [0.2 * k, 0.3, 0.25 * k, 0.1], False, {}],
+         ["Thermal", [0.3 * k], False, {}], ["MeasureHomodyne", [0.3], False, {"select": 0.2}]]
+    if backend in ("gaussian", "bosonic"):
+        u += [["MeasureHeterodyne", [], False, {"select": {"c": [0.1, -0.2]}}],
+              ["ThermalLossChannel", [0.5, 0.4], False, {}], ["ThermalLossChannel", [1.0, 0.4], False, {}], ["ThermalLossChannel", [0.0, 0.4], False, {}],
+              ["Gaussian", [{"mat": [[1.5, 0.2], [0.2, 0.9]]}], False, {}]]
+    if backend == "gaussian":
+        u += [["PassiveChannel", [{"cmat": [[[0.6, 0.3]]]}], False, {}], ["Interferometer", [{"cmat": [[[math.cos(0.7), math.sin(0.7)]]]}], False, {}],
+              ["GaussianTransform", [{"mat": [[1.2, 0.3], [0.1, (1 + 0.03) / 1.2]]}], False, {}], ["MeasureHomodyne", [0.0], False, {}]]
+    if backend == "fock":
+        v = np.array([0.8, 0.5, 0.3j, 0.1] + [0] * (X_CUTOFF - 4))
+        v = v / np.linalg.norm(v)
+        rho = 0.7 * np.outer(v, v.conj()) + 0.3 * np.diag([1.0] + [0] * (X_CUTOFF - 1))
+        u += [["Vgate", [0.05], False, {}], ["Kgate", [0.2], False, {}], ["Kgate", [0.2], True, {}], ["Fock", [1], False, {}], ["Fock", [0], False, {}],
+              ["Ket", [{"vec": [[z.real, z.imag] for z in v]}], False, {}], ["DensityMatrix", [{"cmat": [[[z.real, z.imag] for z in row] for row in rho]}], False, {}],
+              ["MeasureFock", [], False, {"select": 1}]]
+    if backend == "bosonic":
+        u += [["Catstate", [0.8, 0.3, 0], False, {}], ["Fock", [1], False, {}], ["MSgate", [0.3, 0.2, 1.5, 0.9, True], False, {}]]
+    return u
+
+
+def x_wrap(pair, two, ctxname, backend):
+    """Put a list of commands acting on label t (and u for two-mode ones) into a context.  pair: [[name,args,dagger,opts], ...]"""
+    weak = backend == "fock"
+    big = 3 if weak else 6
+    n, t, u, pre_new = {"plain": (2, 0, 1, False), "rev": (2, 1, 0, False), "apart": (3, 0, 1, False), "blocked": (3, 1, 2, False), "del": (3, 0, 1, False),
+                        "new": (2, 2, 0, True), "high": (big, big - 1, 1 if weak else 2, False)}[ctxname]
+    cmds = x_prefix(list(range(n)), weak)
+    if pre_new:
+        cmds += [["New", [], [], False, {}]] + x_prefix([2], weak) + [["BSgate", [0.5, 0.2], [2, 1], False, {}]]
+    other = [m for m in range(n + (1 if pre_new else 0)) if m not in ((t, u) if two else (t,))]
+    modes = [t, u] if two else [t]
+    for j, (name, args, dagger, opts) in enumerate(pair):
+        if j:
+            if ctxname == "apart" and other:
+                cmds.append(["Rgate", [0.3], [other[0]], False, {}])
+                if len(other) > 1:
+                    cmds.append(["BSgate", [0.4, 0.1], other[:2], False, {}])
+            if ctxname == "blocked":
+                cmds.append(["BSgate", [0.4, 0.1], [t, other[0]], False, {}])
+        cmds.append([name, args, modes, dagger, opts])
+    o = other[0] if other else u
+    cmds.append(["BSgate", [0.7, 0.4], [t, o], False, {}])
+    if ctxname == "del":
+        cmds.append(["Del", [], [t], False, {}])
+    return {"n": n, "cmds": cmds}
+
+
+CTXS = ["plain", "rev", "apart", "blocked", "del", "new", "high"]
+
+
+def x_pair_sweep(backend):
+    """Same-family pairs: every family x relation between the first parameters x dagger flags (contexts are chosen by the caller)."""
+    weak = backend == "fock"
+    k = 0.4 if weak else 1.0
+    fams1 = dict(XG1, **(XG1_FOCK if weak else {}))
+    fams2 = dict(XG2, **(XG2_FOCK if weak else {}))
+    out = []
+    for two, fams in ((False, fams1), (True, fams2)):
+        for name, nextra in fams.items():
+            a = {"Vgate": 0.05, "Kgate": 0.25, "CKgate": 0.25, "Rgate": 0.75, "BSgate": 0.5, "MZgate": 0.5}.get(name, 0.25 * k)
+            for rel in ("same", "cancel", "near", "zero", "diffextra", "other"):
+                if rel == "diffextra" and not nextra:
+                    continue
+                for da in (False, True):
+                    for db in (False, True):
+                        ea = a
+                        eb = {"same": a, "cancel": -a, "near": -a + 2.0 ** -9, "zero": a, "diffextra": a, "other": 0.5 * a}[rel]
+                        if rel == "zero":
+                            ea = 0.0
+                        pa, pb = (-ea if da else ea), (-eb if db else eb)
+                        xa = [0.5] * nextra
+                        xb = [0.5] * nextra if rel != "diffextra" else [0.25] * nextra
+                        out.append((two, "%s:%s" % (name, rel), [[name, [pa] + xa, da, {}], [name, [pb] + xb, db, {}]]))
+    return out
+
+
+def x_channel_sweep(backend):
+    out = []
+    Ts = [(0.5, 0.5), (1.0, 1.0), (1.0, 0.5), (0.5, 1.0), (0.0, 0.5), (0.5, 0.0), (0.0, 0.0), (0.998, 0.998), (0.25, 0.75)]
+    for a, b in Ts:
+        out.append((False, "LossChannel", [["LossChannel", [a], False, {}], ["LossChannel", [b], False, {}]]))
+        if backend != "fock":
+            for na, nb in ((0.4, 0.4), (0.4, 0.2), (0.0, 0.4)):
+                out.append((False, "ThermalLossChannel", [["ThermalLossChannel", [a, na], False, {}], ["ThermalLossChannel", [b, nb], False, {}]]))
+    out.append((False, "Loss3", [["LossChannel", [0.5], False, {}], ["LossChannel", [0.5], False, {}], ["LossChannel", [0.8], False, {}]]))
+    if backend == "gaussian":
+        ph = lambda t, a: {"cmat": [[[t * math.cos(a), t * math.sin(a)]]]}
+        for (t1, a1), (t2, a2) in (((1.0, 0.7), (1.0, -0.7)), ((1.0, 0.7), (1.0, 0.7)), ((1.0, 0.7), (1.0, math.pi - 0.7)), ((0.8, 0.3), (0.5, 1.1)), ((1.0, 0.0), (1.0, math.pi)), ((0.999, 0.0), (0.999, 0.0))):
+            out.append((False, "PassiveChannel", [["PassiveChannel", [ph(t1, a1)], False, {}], ["PassiveChannel", [ph(t2, a2)], False, {}]]))
+            if t1 == 1.0 and t2 == 1.0:
+                out.append((False, "Interferometer", [["Interferometer", [ph(1.0, a1)], False, {}], ["Interferometer", [ph(1.0, a2)], False, {}]]))
+        R = lambda t: np.array([[math.cos(t), -math.sin(t)], [math.sin(t), math.cos(t)]])
+        S = R(0.4) @ np.diag([math.exp(-0.3), math.exp(0.3)]) @ R(-1.1)
+        Si = np.linalg.inv(S)
+        for nm, B in (("inv", Si), ("minus-inv", -Si), ("near-inv", Si @ R(2e-4)), ("same", S), ("other", R(0.9) @ np.diag([1.25, 0.8]))):
+            out.append((False, "GaussianTransform:" + nm, [["GaussianTransform", [{"mat": S.tolist()}], False, {}], ["GaussianTransform", [{"mat": B.tolist()}], False, {}]]))
+        out.append((False, "Interferometer:near", [["Interferometer", [ph(1.0, 0.7)], False, {}], ["Interferometer", [ph(1.0, -0.7 + 2e-4)], False, {}]]))
+    if backend == "bosonic":
+        out.append((False, "MSgate", [["MSgate", [0.3, 0.2, 1.5, 0.9, True], False, {}], ["MSgate", [0.3, 0.2, 1.5, 0.9, True], False, {}]]))
+        out.append((False, "MSgate", [["MSgate", [1.0, 0.0, 1.5, 0.9, True], False, {}], ["MSgate", [1.0, 0.0, 1.5, 0.9, True], False, {}]]))
+    return out
+
+
+def x_symbolic_sweep():
+    """Pairs / triples whose first (or further) parameters are free symbols or measured values."""
+    fx = lambda k=1, b=0: {"free": "x", "k": k, "b": b}
+    fy = lambda k=1, b=0: {"free": "y", "k": k, "b": b}
+    out = []
+    for name, extra in (("Dgate", [0.5]), ("Xgate", []), ("Zgate", []), ("Sgate", [0.5]), ("Rgate", []), ("Pgate", [])):
+        for da in (False, True):
+            for db in (False, True):
+                for pa, pb, tag in ((fx(), fx(), "x,x"), (fx(), fx(-1), "x,-x"), (fx(), fy(), "x,y"), (fx(), 0.25, "x,num"), (0.25, fx(), "num,x"), (fx(2), fx(-1, 0.125), "2x,-x+c")):
+                    out.append((False, "%s:%s" % (name, tag), [[name, [pa] + extra, da, {}], [name, [pb] + extra, db, {}]]))
+    for name in ("Dgate", "Sgate"):
+        for ea, eb, tag in ((fy(), fy(), "phi=y,y"), (fy(), fx(), "phi=y,x"), (fy(), 0.5, "phi=y,num")):
+            out.append((False, "%s:%s" % (name, tag), [[name, [0.25, ea], False, {}], [name, [0.125, eb], False, {}]]))
+    for pa, pb, tag in ((fx(), fx(), "x,x"), (fx(), fy(), "x,y"), (fx(), 0.5, "x,num"), (1.0, fx(), "1,x"), (fx(), 1.0, "x,1")):
+        out.append((False, "LossChannel:" + tag, [["LossChannel", [pa], False, {}], ["LossChannel", [pb], False, {}]]))
+        out.append((False, "ThermalLossChannel:" + tag, [["ThermalLossChannel", [pa, fy()], False, {}], ["ThermalLossChannel", [pb, fy()], False, {}]]))
+    out.append((False, "ThermalLossChannel:nbar=x,y", [["ThermalLossChannel", [0.5, fx()], False, {}], ["ThermalLossChannel", [0.5, fy()], False, {}]]))
+    for name, args in (("Coherent", [fx(), 0.3]), ("Squeezed", [fx(), fy()]), ("Thermal", [fx()])):
+        out.append((False, name + ":sym-prep", [["Squeezed", [0.2, 0.1], False, {}], [name, args, False, {}], ["Rgate", [fx()], False, {}]]))
+    return out
+
+
+def x_measured_sweep():
+    """Gates fed by the measured value of THEIR OWN mode (one wire only: the optimiser merges them) and of another mode (never merged)."""
+    out = []
+    for sel in ({"select": 0.3}, {}):
+        for name, extra in (("Xgate", []), ("Zgate", []), ("Dgate", [0.4]), ("Sgate", [0.3]), ("Rgate", [])):
+            for k2, tag in ((1, "m,m"), (-1, "m,-m"), (0.5, "m,m/2")):
+                for src in ("own", "other"):
+                    for da, db in ((False, False), (False, True), (True, True)):
+                        out.append((name, extra, k2, src, da, db, sel, "%s:%s:%s" % (name, tag, src)))
+    return out
+
+
+def x_measured_spec(item):
+    name, extra, k2, src, da, db, sel, _ = item
+    # modes 0,1,2 entangled; mode 1 is measured; the fed-forward gates act on mode 1 (own) or 0 (other); a squeezer re-populates mode 1 first
+    t = 1 if src == "own" else 0
+    cmds = x_prefix([0, 1, 2], False)
+    cmds.append(["MeasureHomodyne", [0.2], [1], False, dict(sel)])
+    m = {"meas": 1}
+    cmds.append(["Squeezed", [0.3, 0.2], [1], False, {}])
+    cmds.append(["BSgate", [0.5, 0.1], [1, 2], False, {}])
+    cmds.append([name, [dict(m, k=0.5)] + extra, [t], da, {}])
+    cmds.append([name, [dict(m, k=0.5 * k2)] + extra, [t], db, {}])
+    cmds.append(["BSgate", [0.7, 0.4], [t, 2], False, {}])
+    return {"n": 3, "cmds": cmds}
+
+
+def x_random(rng, backend):
+    """Random program with New / Del, repeated families (merge bait), symbolic and measured parameters, up to 6 modes."""
+    weak = backend == "fock"
+    n = rng.randint(1, 3) if backend != "gaussian" else rng.choice([1, 2, 3, 3, 4, 5, 6])
+    maxm = 3 if weak else (4 if backend == "bosonic" else 7)
+    cmds = x_prefix(list(range(n)), weak)
+    alive, nxt, measured, free = list(range(n)), n, [], {}
+    nmeas, unselected = 0, False
+    units = [u for u in x_units(backend) if u[0] not in ("MeasureFock",) and not (u[0] == "MeasureHomodyne" and not u[3] and backend != "gaussian")]
+    k = 0.4 if weak else 1.0
+    two = dict(XG2, **(XG2_FOCK if weak else {}))
+    def val(name, i):
+        """a parameter value: number (dyadic, so that sums cancel exactly), free symbol or measured value"""
+        r = rng.random()
+        if i == 0 and r < 0.15:
+            s = rng.choice(["x", "y"])
+            free.setdefault(s, round(rng.uniform(0.1, 0.4), 3))
+            return {"free": s, "k": rng.choice([1, 1, -1, 2])}
+        if i == 0 and r < 0.25 and measured and name in ("Xgate", "Zgate", "Dgate", "Rgate", "Sgate"):
+            return {"meas": rng.choice(measured), "k": rng.choice([1, -1, 0.5])}
+        return rng.choice([0.25, -0.25, 0.5, 0.125, -0.375, 0.0]) * (k if name not in ("Rgate", "BSgate", "MZgate") else 1.0)
+    hist = []
+    for _ in range(rng.randint(3, 12)):
+        r = rng.random()
+        if r < 0.07 and nxt < maxm and (not weak or len(alive) < 3):
+            cmds.append(["New", [], [], False, {}])
+            cmds += x_prefix([nxt], weak)
+            if alive:
+                cmds.append(["BSgate", [0.5, 0.2], [nxt, rng.choice(alive)], False, {}])
+            alive.append(nxt)
+            nxt += 1
+            continue
+        if r < 0.12 and len(alive) > 1:
+            m = rng.choice(alive)
+            alive.remove(m)
+            if m in measured:
+                measured.remove(m)
+            hist = [h for h in hist if m not in h[2]]
+            cmds.append(["Del", [], [m], False, {}])
+            continue
+        if r < 0.55 and hist:
+            name, args, modes, dagger, opts = rng.choice(hist)
+            args = list(args)
+            if args and not isinstance(args[0], dict) and name in dict(XG1, **XG1_FOCK, **two):
+                rel = rng.random()
+                eff = -args[0] if dagger else args[0]
+                dagger = rng.random() < 0.4
+                e2 = eff if rel < 0.3 else (-eff if rel < 0.6 else (-eff + 2.0 ** -9 if rel < 0.7 else val(name, 0)))
+                if not isinstance(e2, dict):
+                    e2 = -e2 if dagger else e2
+                args[0] = e2
+            elif args and isinstance(args[0], dict) and "free" in args[0]:
+                args[0] = dict(args[0], k=rng.choice([1, -1, 2]))
+                dagger = rng.random() < 0.3 if name in dict(XG1, **XG1_FOCK, **two) else False
+            if rng.random() < 0.1 and len(modes) == 2:
+                modes = modes[::-1]
+            c = [name, args, list(modes), dagger, dict(opts)]
+        elif r < 0.75 and len(alive) > 1:
+            name = rng.choice(sorted(two))
+            c = [name, [val(name, 0)] + [rng.choice([0.5, 0.25])] * two[name], rng.sample(alive, 2), rng.random() < 0.3, {}]
+        else:
+            name, args, dagger, opts = rng.choice(units)
+            args = list(args)
+            if name in dict(XG1, **XG1_FOCK):
+                args[0] = val(name, 0)
+            c = [name, args, [rng.choice(alive)], dagger, dict(opts)]
+        if any(isinstance(a, dict) and a.get("meas") in c[2] for a in c[1]) and len(c[2]) > 1:
+            continue
+        if c[0] in ("MeasureHomodyne", "MeasureHeterodyne"):
+            # outcomes are drawn as mean + d * std of the state at that moment: with a measurement that is not post-selected the
+            # order of two independent measurements matters for the VALUES (not for their distribution) -> it must be the only one
+            free_meas = not c[4]
+            if len(alive) < 2 or (nmeas and (free_meas or unselected)):
+                continue
+            nmeas += 1
+            unselected = unselected or free_meas
+            measured.append(c[2][0]) if c[2][0] not in measured else None
+        cmds.append(c)
+        hist.append(c)
+        if len(c[2]) == 1 and rng.random() < 0.3 and len(alive) > 1:
+            # spread what happened on this mode
+            cmds.append(["BSgate", [0.5, 0.2], [c[2][0], rng.choice([m for m in alive if m != c[2][0]])], False, {}])
+    return {"n": n, "cmds": cmds, "free": free}
+
+
+def x_compiler_program(rng, comp):
+    """Programs inside the vocabulary of the special-purpose compilers, with merge bait."""
+    g = lambda: rng.choice([0.25, -0.25, 0.5, 0.125, -0.375])
+    if comp in ("Xunitary", "Xcov"):
+        h = rng.choice([2, 3, 4])
+        cmds = [["S2gate", [rng.choice([0.5, 0.25, 1.0]), 0.0], [i, i + h], False, {}] for i in range(h)]
+        half = []
+        for _ in range(rng.randint(2, 6)):
+            if rng.random() < 0.55 or h < 2:
+                m = rng.randrange(h)
+                a = g()
+                half.append(["Rgate", [a], [m], rng.random() < 0.3, {}])
+                if rng.random() < 0.6:
+                    half.append(["Rgate", [rng.choice([a, -a, g()])], [m], rng.random() < 0.3, {}])
+            else:
+                m = rng.randrange(h - 1)
+                half.append([rng.choice(["BSgate", "MZgate"]), [rng.choice([0.5, 0.75, 0.3]), rng.choice([0.0, 0.5])], [m, m + 1], False, {}])
+        for c in half:
+            cmds.append(c)
+        for c in half:
+            cmds.append([c[0], list(c[1]), [m + h for m in c[2]], c[3], {}])
+        cmds.append(["MeasureFock", [], list(range(2 * h)), False, {}])
+        return {"n": 2 * h, "cmds": cmds}
+    n = rng.randint(1, 4)
+    cmds = []
+    if comp == "passive":
+        fams = ["Rgate", "LossChannel", "BSgate", "MZgate", "PassiveChannel1", "Interferometer1", "Interferometer2"]
+    elif comp == "gaussian_unitary":
+        fams = ["Rgate", "Sgate", "Dgate", "Xgate", "Zgate", "Pgate", "Fouriergate", "BSgate", "S2gate", "CXgate", "CZgate", "MZgate", "Interferometer1", "Interferometer2", "GaussianTransform1"]
+    else:  # gbs, gaussian_merge: Gaussian programs
+        fams = ["Rgate", "Sgate", "Dgate", "Xgate", "Zgate", "Fouriergate", "BSgate", "S2gate", "LossChannel", "Squeezed", "Coherent", "Thermal"]
+        if comp == "gaussian_merge":
+            fams = ["Rgate", "Sgate", "Dgate", "Xgate", "Zgate", "Pgate", "Fouriergate", "BSgate", "S2gate", "CXgate", "CZgate", "MZgate", "Interferometer1", "Interferometer2", "GaussianTransform1"]
+    if comp != "passive":
+        cmds = x_prefix(list(range(n)), False)
+    prev = None
+    for _ in range(rng.randint(3, 12)):
+        f = prev[0] if prev and rng.random() < 0.45 else rng.choice(fams)
+        two = f in XG2 or f == "Interferometer2"
+        if two and n < 2:
+            continue
+        modes = list(prev[2]) if prev and prev[0] == f and rng.random() < 0.8 else rng.sample(range(n), 2 if two else 1)
+        dag = f in dict(XG1, **XG2) and rng.random() < 0.3 or (f == "Fouriergate" and rng.random() < 0.5)
+        if f in XG1 or f in XG2:
+            a = g() if not (prev and prev[0] == f and rng.random() < 0.5) else (prev[1][0] if rng.random() < 0.5 else -prev[1][0])
+            args = [a] + [0.5] * dict(XG1, **XG2)[f]
+        elif f == "Fouriergate":
+            args = []
+        elif f == "LossChannel":
+            args = [rng.choice([0.5, 1.0, 0.75, 0.0])]
+        elif f == "ThermalLossChannel":
+            args = [rng.choice([0.5, 1.0, 0.75]), rng.choice([0.25, 0.5])]
+        elif f in ("Squeezed", "Coherent"):
+            args = [rng.choice([0.25, 0.5]), rng.choice([0.0, 0.5])]
+        elif f == "Thermal":
+            args = [rng.choice([0.25, 0.5])]
+        elif f in ("PassiveChannel1", "Interferometer1"):
+            t, a = (rng.choice([1.0, 0.5]) if f == "PassiveChannel1" else 1.0), rng.choice([0.7, -0.7, 0.3, math.pi])
+            args = [{"cmat": [[[t * math.cos(a), t * math.sin(a)]]]}]
+        elif f == "Interferometer2":
+            th, ph = rng.choice([0.4, 0.9]), rng.choice([0.0, 0.6])
+            U = np.array([[math.cos(th), -np.exp(-1j * ph) * math.sin(th)], [np.exp(1j * ph) * math.sin(th), math.cos(th)]])
+            args = [{"cmat": [[[z.real, z.imag] for z in row] for row in U]}]
+        elif f == "GaussianTransform1":
+            R = lambda t: np.array([[math.cos(t), -math.sin(t)], [math.sin(t), math.cos(t)]])
+            S = R(rng.choice([0.4, -0.9])) @ np.diag([math.exp(-0.25), math.exp(0.25)]) @ R(rng.choice([0.3, 1.2]))
+            if prev and prev[0] == f and rng.random() < 0.4:
+                S = np.linalg.inv(np.array(prev[1][0]["mat"]))
+            args = [{"mat": S.tolist()}]
+        c = [f.rstrip("12"), args, modes, bool(dag), {}]
+        cmds.append(c)
+        prev = [f, args, modes]
+    if comp == "gbs":
+        cmds.append(["MeasureFock", [], list(range(n)), False, {}])
+    return {"n": n, "cmds": cmds}
+
+
+X_ROUTES = {"gaussian": ["opt", "opt", "opt", "opt2", "ran", "engine", "compiled-then-opt", "compile:gaussian"],
+            "fock": ["opt", "opt", "opt2", "ran", "engine", "compiled-then-opt", "compile:fock"],
+            "bosonic": ["opt", "opt", "opt2", "engine", "compile:bosonic"]}
+
+
+def x_judge(ctx, spec, bucket):
+    data = {"check": "xspec", "spec": spec}
+    try:
+        sig, text, merged = x_check(spec)
+    except Exception as e:
+        ctx.counterexample("xstream:%s:raises:%s" % (spec["route"], type(e).__name__), "checking %s raised %r" % (bucket, e), data)
+        return
+    if sig is None and text:
+        ctx.hist["x-skipped:" + text[:40]] = ctx.hist.get("x-skipped:" + text[:40], 0) + 1
+        return
+    ctx.case({"route": spec["route"], "backend": spec["backend"], "n": spec["n"], "cmds": [[c[0], c[2], c[3]] for c in spec["cmds"]]}, nontrivial=bool(merged), bucket=bucket)
+    if sig is not None:
+        ctx.counterexample(sig + ":" + bucket.split("/")[-1], text, data)
+
+
+def search_extended(ctx):
+    rng = ctx.rng
+    quick = ctx.tier == "quick"
+    def finish(spec, backend, route=None):
+        spec = dict(spec, backend=backend, route=route or rng.choice(X_ROUTES[backend]), draw=rng.choice([0.3, -0.6, 1.1]), draw0=-0.7)
+        spec.setdefault("free", {})
+        return spec
+    # 1. same-family pairs: family x relation x dagger flags, in a context
+    for backend, keep in (("gaussian", 1.0), ("fock", ctx.budget(0.12, 1.0)), ("bosonic", ctx.budget(0.08, 0.5))):
+        for two, tag, pair in x_pair_sweep(backend) + x_channel_sweep(backend):
+            for ctxname in ([rng.choice(CTXS)] if quick else CTXS):
+                if rng.random() > keep:
+                    continue
+                x_judge(ctx, finish(x_wrap(pair, two, ctxname, backend), backend), "x-pair/%s/%s" % (backend, tag.split(":")[0]))
+    # 2. cross-family ordered pairs of single-mode commands (only preparations absorb, nothing else may merge)
+    for backend, cnt in (("gaussian", ctx.budget(90, 900)), ("fock", ctx.budget(25, 400)), ("bosonic", ctx.budget(12, 200))):
+        units = x_units(backend)
+        for _ in range(cnt):
+            a, b = rng.choice(units), rng.choice(units)
+            pair = [a, b] + ([rng.choice(units)] if rng.random() < 0.3 else [])
+            x_judge(ctx, finish(x_wrap(pair, False, rng.choice(CTXS), backend), backend), "x-cross/%s/%s+%s" % (backend, a[0], b[0]))
+    # 3. symbolic parameters
+    sym = x_symbolic_sweep()
+    for two, tag, pair in (rng.sample(sym, ctx.budget(70, len(sym))) if quick else sym):
+        spec = finish(x_wrap(pair, two, rng.choice(CTXS), "gaussian"), "gaussian")
+        spec["free"] = {"x": rng.choice([0.3, 0.55, 0.2]), "y": rng.choice([0.7, 0.45])}
+        x_judge(ctx, spec, "x-free/" + tag.split(":")[0])
+    ms = x_measured_sweep()
+    for item in (rng.sample(ms, ctx.budget(50, len(ms))) if quick else ms):
+        x_judge(ctx, finish(x_measured_spec(item), "gaussian"), "x-measured/" + item[-1].split(":")[0])
+    # 4. random programs
+    for backend, cnt in (("gaussian", ctx.budget(80, 900)), ("fock", ctx.budget(20, 300)), ("bosonic", ctx.budget(10, 120))):
+        for _ in range(cnt):
+            x_judge(ctx, finish(x_random(rng, backend), backend), "x-random/" + backend)
+    # 5. the special-purpose compilers
+    for comp in ("gaussian_unitary", "gaussian_merge", "passive", "gbs", "Xunitary", "Xcov"):
+        for _ in range(ctx.budget(10, 100)):
+            x_judge(ctx, finish(x_compiler_program(rng, comp), "gaussian", "compile:" + comp), "x-compiler/" + comp)
+
+
 def replay(ctx, data):
     d = data["data"]
+    if d.get("check") == "xspec":
+        r = x_check(d["spec"])
+        print("extended stream:", r[:2])
+        return r[0] is not None
     if d.get("check") == "matmerge":
         r = mat_merge_check(d["spec"])
         print("matrix-parameter merge:", r)
